@@ -4,6 +4,7 @@ import (
 	"bufio"
 	"fmt"
 	"io"
+	"reflect"
 	"unsafe"
 
 	snes "github.com/alttpo/snes"
@@ -51,6 +52,9 @@ func (c10) Gen(r *sim.Rand, tier string, run uint64) *sim.Scenario {
 		size = 0x400000 // a 4 MiB image: every bank $00-$7F has its window inside it
 	}
 	sc.Cfg["imgsize"] = int64(size)
+	if r.Chance(1, 6) {
+		sc.Cfg["goodsum"] = 1 // the header checksum and its complement are correct, as in a real dump
+	}
 	nb := size >> 15
 	pickAddr := func() int64 {
 		bank := r.Intn(nb)
@@ -147,7 +151,7 @@ func (c10) Gen(r *sim.Rand, tier string, run uint64) *sim.Scenario {
 			// that fails part-way): third value = an offset / fault position for those
 			client := r.Intn(6)
 			if r.Chance(1, 4) {
-				client = 6 + r.Intn(4)
+				client = 6 + r.Intn(6)
 			}
 			aux := int64(sim.PickInt(r, 0, 0, 1, -1, 2, l, -l, rem, rem+1, -rem, r.Intn(rem+2)))
 			ops = append(ops, sim.Op{K: "read", N: []int64{int64(id), int64(l), int64(client), aux, int64(r.Intn(3))}})
@@ -502,6 +506,72 @@ func (w *c10world) optionalReaderOp(s *c10stream, client, l int, aux int64, when
 			return
 		}
 		s.pos++
+	case 10:
+		// an object handed out for reading must not be a way to change the image
+		did := false
+		payload := []byte{byte(aux), byte(aux >> 8), 0x5A}
+		sim.RecoverLib(func() {
+			switch x := s.r.(type) {
+			case io.Writer:
+				_, _ = x.Write(payload)
+				did = true
+			case io.StringWriter:
+				_, _ = x.WriteString(string(payload))
+				did = true
+			case io.ByteWriter:
+				_ = x.WriteByte(payload[0])
+				did = true
+			case io.ReaderFrom:
+				_, _ = x.ReadFrom(&plainReader{data: payload})
+				did = true
+			}
+		})
+		if did {
+			st.SimOps++
+			st.Probe("reader_offers_a_write_method")
+			w.compareImage("a write through the object returned by BusReader")
+		}
+	case 11:
+		// slices the reader hands out (bytes.Buffer-like Bytes/Next/Peek) must lie inside the
+		// window, capacity included: re-slicing must not reach other bytes of the image
+		rv := reflect.ValueOf(s.r)
+		for _, name := range []string{"Bytes", "Next", "Peek"} {
+			m := rv.MethodByName(name)
+			if !m.IsValid() {
+				continue
+			}
+			mt := m.Type()
+			var args []reflect.Value
+			switch {
+			case mt.NumIn() == 0:
+			case mt.NumIn() == 1 && mt.In(0).Kind() == reflect.Int:
+				args = []reflect.Value{reflect.ValueOf(0)}
+			default:
+				continue
+			}
+			if mt.NumOut() < 1 || mt.Out(0) != reflect.TypeOf([]byte(nil)) {
+				continue
+			}
+			var out []reflect.Value
+			if p, _ := sim.RecoverLib(func() { out = m.Call(args) }); p || len(out) == 0 {
+				continue
+			}
+			b := out[0].Bytes()
+			st.Probe("reader_hands_out_slices")
+			if cap(b) == 0 || len(w.img) == 0 {
+				continue
+			}
+			full := b[:cap(b)]
+			lo, base := uintptr(unsafe.Pointer(&full[0])), uintptr(unsafe.Pointer(&w.img[0]))
+			if lo < base || lo >= base+uintptr(len(w.img)) {
+				continue // a private copy
+			}
+			off := int(lo - base)
+			if off < s.start || off+cap(b) > s.end {
+				w.fail("slice_beyond_window", "%s() of the reader returns a slice of the image at file offset %#x with capacity %d: re-slicing it reaches bytes outside the window [%#x,%#x)", name, off, cap(b), s.start, s.end)
+				return
+			}
+		}
 	case 9:
 		wt, ok := s.r.(io.WriterTo)
 		if !ok {
@@ -653,7 +723,7 @@ func (c c10) Exec(sc *sim.Scenario, env *sim.Env) (viol *sim.Violation) {
 	if size > 0x400000 {
 		size = 0x400000
 	}
-	env.SetWatchdog(uint64(len(sc.Ops)+4) * 20000)
+	env.SetWatchdog(uint64(len(sc.Ops)+4) * (200000 + 4*uint64(size))) // generous (a pass over the whole image per call is fine): only a consumer that spins for ever may trip it
 	w := &c10world{env: env, st: st, relax: env.Relax["D2"]}
 	if size > 0x100000 {
 		// large image: one random 64 KiB block, varied per 32 KiB bank
@@ -675,6 +745,17 @@ func (c c10) Exec(sc *sim.Scenario, env *sim.Env) (viol *sim.Violation) {
 		w.img[0x7FD5] = byte(sim.PickInt(hr, 0x20, 0x21, 0x23, 0x25, 0x30, 0x31, 0x35, hr.Intn(256))) // map mode
 		w.img[0x7FD7] = byte(hr.Intn(14))                                                             // ROM size
 		w.img[0x7FD8] = byte(hr.Intn(9))                                                              // RAM size
+	}
+	if sc.C("goodsum") != 0 && size >= 0x8000 {
+		copy(w.img[0x7FDC:0x7FE0], []byte{0xFF, 0xFF, 0x00, 0x00})
+		sum := uint32(0)
+		for _, b := range w.img {
+			sum += uint32(b)
+		}
+		chk := uint16(sum)
+		w.img[0x7FDC], w.img[0x7FDD] = byte(^chk), byte(^chk>>8)
+		w.img[0x7FDE], w.img[0x7FDF] = byte(chk), byte(chk>>8)
+		st.Probe("image_with_correct_checksum")
 	}
 	w.model = append([]byte{}, w.img...)
 	name := "sim"
@@ -847,7 +928,7 @@ func (c c10) Exec(sc *sim.Scenario, env *sim.Env) (viol *sim.Violation) {
 						s.eofSeen = true
 					}
 				}
-			case 6, 7, 8, 9:
+			case 6, 7, 8, 9, 10, 11:
 				if s.low {
 					buf := make([]byte, l)
 					_, _ = cr.Read(buf)
